@@ -214,6 +214,9 @@ PROPS = {
         "modes": [
             {"mode": "calls", "quick": {"runs": 4000}, "thorough": {"runs": 50000}},
             {"mode": "cas", "quick": {"runs": 8000}, "thorough": {"runs": 100000}},
+            # the commit-wait clause on the commit timestamps whole transactions really get (engine txnsim, reference
+            # backend: 2PC, async commit, 1PC; causal consistency on / off)
+            {"mode": "commitwait-R", "engine": "txnsim", "quick": {"runs": 1000}, "thorough": {"runs": 40000}},
         ],
         "rule": "seeded caller programs and PD latencies; mode cas: seeded release order of parked goroutines at the yield points; non-trivial = at least two callers overlapped; distinct = canonical call histories",
         "real_vs_stub": "real code: oracle/oracles.pdOracle, oracle/oracle.go, tikv.KVStore timestamp retry, KVTxn.GetTimestampForCommit; stub: PD/TSO (simulated), TiKV client (never used), clock",
